@@ -47,6 +47,7 @@ def setup(rep, tier):
     rep.minimum('R16.9', 1)
     rep.minimum('R16.10', 8)
     rep.minimum('R16.11', 1)
+    rep.minimum('R16.12', 1)
 
 
 def _pos_key(f):
@@ -782,7 +783,53 @@ def r16_11(rep, prog):
     return n
 
 
+# ------------------------------------------------------------------ R16.12
+def r16_12(rep, prog):
+    """lacing: the length of a long extension that is not the last one is written as a run of 255s closed by one byte
+    BELOW 255 - the parser stops at the first byte that is not 255.  In the generator, the store that follows the loop of
+    255-stores must therefore hold a value the interval analysis bounds to 0..254; a closing byte that can be 255 makes a
+    payload of exactly 255*k bytes run into the next extension."""
+    from .. import absint
+    n = 0
+    for f in prog.functions_all:
+        if not f.file.endswith('extensions.c'):
+            continue
+        cf = cfgm.CFG(f)
+        loops = cf.natural_loops()
+        if not loops:
+            continue
+        # loops whose body stores the constant 255 through a byte pointer
+        for h, latch, body in loops:
+            st255 = [(b, i, x) for b, i, x in cf.find(lambda x: x[0] == 'assign' and sx.kind(sx.strip_paren(x[1])) == 'idx' and sx.int_val(sx.strip(x[2])) == 255) if b in body]
+            if not st255:
+                continue
+            base = sx.key(sx.strip(sx.strip_paren(st255[0][2][1])[1]))
+            # the first store to the same array after the loop, on the loop's exit path
+            after = [(b, i, x) for b, i, x in cf.find(lambda x: x[0] == 'assign' and sx.kind(sx.strip_paren(x[1])) == 'idx' and sx.key(sx.strip(sx.strip_paren(x[1])[1])) == base)
+                     if b not in body and cf.dominates(h, b) and sx.int_val(sx.strip(x[2])) != 255]
+            if not after:
+                continue
+            after.sort(key=lambda t: sx.line(t[2]) or 0)
+            b, i, x = after[0]
+            an = absint.Analyzer(prog, f)
+            st = an.state_before_node(b, i, x)
+            if st is None:
+                continue
+            v = an.ev(x[2], st)
+            n += 1
+            rep.functions.add(f.name)
+            inst = '%s:%s closes the run of 255s with a byte below 255 (`%s`)' % (prog.config, f.name, sx.show(x)[:40])
+            where = '%s:%s' % (f.file, sx.line(x))
+            if not absint.is_top(v) and 0 <= absint.lo(v) and absint.hi(v) <= 254:
+                rep.holds('R16.12', inst, where, 'value in %s' % absint.show(v))
+            else:
+                rep.violated('R16.12', inst, where, 'the closing lacing byte is in %s: when it is 255 the parser reads on, so a payload of exactly 255*k bytes swallows the header of the next extension' % absint.show(v),
+                             key='%s:lacing-terminator' % f.name)
+    return n
+
+
 def check(rep, prog, tier):
+    r16_12(rep, prog)
     r16_11(rep, prog)
     r16_10(rep, prog)
     r16_9(rep, prog)
